@@ -111,6 +111,12 @@ def unit(item):
             p.add(caps_hit=1)
         for h in tree.dead:
             p.note(f"{spec.key} {iid}: dead end after {list(h)} (reported under C02)")
+        for h, e in tree.crashes:
+            p.violation(
+                sig(PID, spec, f"crash:{type(e).__name__}", "mask_admitted_step"),
+                dict(kind="sched_trace", spec=spec.key, instance_id=iid, instance=inst, actions=list(h)),
+                f"{spec.key} {iid}: the mask-admitted step {list(h)} raises {type(e).__name__}: {str(e)[:100]} (no schedule is produced)",
+            )
         if not tree.leaves:
             continue
         if spec.kind == "smtwtp":
@@ -167,9 +173,14 @@ def replay(rec):
     spec = SPECS[rec["spec"]]
     inst = rec["instance"]
     env = spec.env(inst)
-    td, masks, dones = E.run_solo(env, spec.td(inst), rec["actions"])
+    try:
+        td, masks, dones = E.run_solo(env, spec.td(inst), rec["actions"])
+    except Exception as e:  # noqa: BLE001
+        return True, f"solo replay raises {type(e).__name__}: {e}"
     h = tuple(rec["actions"])
     obs = rec["signature"]["observable"]
+    if obs.startswith("crash"):
+        return False, "the trace replays without raising"
     if obs == "mask":
         sim = OS.simulate_ffsp(inst, h, spec.num_stage) if spec.kind == "ffsp" else OS.simulate_fjsp(inst, h, jssp=spec.jssp, mask_no_ops=spec.mask_no_ops)
         offered = [a for a, m in enumerate(masks[-1]) if m]
